@@ -137,6 +137,21 @@ class C15(MergeFamProp):
             out[(len(out) - 1 - i) % len(out)] = {'docs': docs[:self.NMAX], 'style': ['flow', 0, 0]}
         for c in out:
             c['vseed'] = rng.randrange(1 << 30)
+        # a first stage built through the Python API from data in which ONE container object sits below two (or three) keys, then a
+        # YAML document writing below one of them: whatever the order of the keys of the API data, the result is the same up to key
+        # order (one object - one node is the constructors' contract; seeded change S7-C15: sharing depended on the key order). Oracle only.
+        for _ in range(max(3, n // 12)):
+            hold = rng.sample(['left', 'right', 'mid'], rng.choice([2, 2, 3]))
+            others = [(k, rng.choice([7, 'net', 2.5, True])) for k in rng.sample(['name', 'seed', 'k'], rng.choice([0, 1, 2]))]
+            shared = rng.choice([{'lr': 1, 'wd': 5}, [10, 20, 30], {'lr': 1}, [[1], 2]])
+            tgt = rng.choice(hold)
+            if isinstance(shared, dict):
+                body = rng.choice([M([('lr', S(25))]), M([('momentum', S(9))], kw={'del': True}), M([('wd', S(0)), ('n', S(1))])])
+            else:
+                body = rng.choice([M([(1, S(99))], kw={'del': False}), Q([S(5)]), Q([S(7)], tag='append')])
+            deep = rng.random() < 0.7
+            out.append({'kind': 'api', 'hold': hold, 'others': others, 'shared': shared, 'deep': deep,
+                        'docs': [{'raw': M([(tgt, M([('opts', body)]) if deep else body)])}], 'style': ['flow', 0, 0], 'vseed': rng.randrange(1 << 30)})
         return out
 
     def variants(self, case):
@@ -168,6 +183,8 @@ class C15(MergeFamProp):
         return v
 
     def impl(self, case):
+        if case.get('kind') == 'api':
+            return self.impl_api(case)
         io = super().impl(case)
         st = case.get('style', ['flow', 0, 0])
         io['var'] = {}
@@ -181,18 +198,53 @@ class C15(MergeFamProp):
     # every related run also goes through the model: a change of the implementation that shows only in a related run
     # (e.g. only when the last document is repeated) breaks the correspondence, and a failure of a law is attributed to
     # a recorded finding only when the faithful model fails the same way (framework: no attribution on a disagreement)
+    def impl_api(self, case):
+        import itertools
+        from common import Builder, render_doc
+        from awesomeyaml.config import Config
+        from awesomeyaml.nodes.dict import ConfigDict
+        text = render_doc(case['docs'][0]['raw'], *case.get('style', ['flow', 0, 0]))
+        keys = list(case['hold']) + [k for k, _ in case['others']]
+        rng = _random.Random(case.get('vseed', 0))
+        orders = list(itertools.permutations(keys))
+        rng.shuffle(orders)
+        orders = [tuple(keys)] + [o for o in orders if o != tuple(keys)][:7]
+        def plain(v):
+            if isinstance(v, dict): return {k: plain(x) for k, x in v.items()}
+            if isinstance(v, (list, tuple)): return [plain(x) for x in v]
+            return v
+        res = []
+        for o in orders + [tuple(keys)]:
+            shared = copy.deepcopy(case['shared'])         # a fresh object for every build, the SAME object below every holder
+            items = {k: ({'opts': shared} if case['deep'] else shared) for k in case['hold']}
+            items.update({k: ''.join(list(v)) if isinstance(v, str) else v for k, v in case['others']})
+            try:
+                b = Builder()
+                b.stages.append(ConfigDict({k: items[k] for k in o}))
+                b.add_source(text, raw_yaml=True)
+                res.append([list(o), {'ok': plain(Config(b.build()))}])
+            except Exception as e:  # noqa
+                res.append([list(o), {'err': type(e).__name__}])
+        return {'api': res, 'cfg': res[0][1], 'tree': None}
+
     def model_requests(self, case):
+        if case.get('kind') == 'api':
+            return []
         reqs = super().model_requests(case)
         for name, docs in self.variants(case).items():
             reqs.append({'op': 'config', 'docs': docs, 'world': self.WORLD})
         return reqs
 
     def model_obs(self, case, answers):
+        if case.get('kind') == 'api':
+            return {'api': True}
         mo = super().model_obs(case, answers)
         mo['var'] = dict(zip(self.variants(case).keys(), answers[2:]))
         return mo
 
     def compare(self, case, io, mo):
+        if case.get('kind') == 'api':
+            return 'SKIP'          # node sharing is outside the model's domain: oracle only
         d = super().compare(case, io, mo)
         if d is not None:
             return d
@@ -206,6 +258,18 @@ class C15(MergeFamProp):
         return None
 
     def oracle(self, case, io, ans):
+        if case.get('kind') == 'api':
+            def norm(x):
+                if isinstance(x, dict): return sorted(([repr(k), norm(v)] for k, v in x.items()), key=lambda kv: kv[0])
+                if isinstance(x, list): return [norm(v) for v in x]
+                return [type(x).__name__, x]
+            ref_o, ref = io['api'][0]
+            for o, r in io['api'][1:]:
+                if ('ok' in r) != ('ok' in ref) or ('ok' in r and norm(r['ok']) != norm(ref['ok'])) or ('err' in r and r['err'] != ref.get('err')):
+                    what = 'building the same stages twice' if o == ref_o else f'key order {o} of the API-built first stage'
+                    return (f'{what} gives {json.dumps(r, default=str)[:160]} but key order {ref_o} gives {json.dumps(ref, default=str)[:160]} '
+                            f'(one container object below the keys {case["hold"]})')
+            return None
         base = io['cfg']
         for name, r in io['var'].items():
             if str(r.get('err', '')).startswith('render:'):
@@ -251,6 +315,6 @@ class C15(MergeFamProp):
         return None
 
     def nontrivial(self, case, io):
-        return len(case['docs']) >= 2
+        return len(case['docs']) >= 2 or case.get('kind') == 'api'
 
 PROP = C15()
